@@ -331,6 +331,22 @@ def flagged_parsed_ob(prog, res, du, dfi):
     seen = [r for r in recs if r['flag'] is not None]
     bad = [r for r in seen if r['flag'] != r['parsed']]
     res.count(evaluations=len(recs))
+    early = []
+    for p in du.loads.inv:
+        if p.unknowns or p.tainted:
+            continue
+        for e in p.events:
+            if e.kind == 'loop-exit' and e.data.get('how') == 'break' and e.under(dfi.short) and isinstance(e.node, ast.For):
+                early.append((p, e))
+    if early:
+        p, e = early[0]
+        w = p.store.witness()
+        if w is not None:
+            ob.verdict = REFUTED
+            ob.detail = ('the element loop is left by `break` before the remaining bitmap flags were examined: an element flagged '
+                         'after that point (or an unconfigured one) is silently ignored and the message is accepted')
+            ob.witness = {k: v for k, v in w.items() if not k.startswith('len<')}
+            return ob
     unk = [u for r in recs for u in r['path'].unknowns]
     if unk:
         ob.verdict, ob.detail = UNDECIDED, f'construct outside the interpreted fragment: {unk[0][0]}'
